@@ -588,6 +588,7 @@ class SqlSite:
         self.bind_star = None  # for (*values, x): name of starred prefix
         self.rows_var = None
         self.replicated_over = None
+        self.sliced = False  # executemany over a slice of rows_var given in place
 
     def loc(self):
         return self.fi.loc(self.call)
@@ -765,6 +766,13 @@ def _sql_sites(prog, mod_name):
             site.replicated_over = repl_of  # the statement has one placeholder per element of this sequence: it touches up to len() rows
             if len(call.args) > 1:
                 b = call.args[1]
+                if many and isinstance(b, ast.Subscript) and isinstance(b.slice, ast.Slice) and isinstance(b.value, ast.Name):
+                    # executemany(query, rows[a:b]): a part of the rows list, written with the statement: same row shape
+                    site.rows_var = b.value.id
+                    site.sliced = True
+                    elts = _rows_tuple(fi, b.value.id)
+                    if elts is not None:
+                        bindings = list(elts)
                 if isinstance(b, ast.Name):
                     v = single_def(fi, b.id)
                     if many:
